@@ -40,7 +40,7 @@ def _option_vars(fn, p_opts):
   for s in ast.walk(fn.node):
     if isinstance(s, ast.Assign) and len(s.targets) == 1 and isinstance(s.targets[0], ast.Name) and \
         isinstance(s.value, ast.Call) and isinstance(s.value.func, ast.Attribute) and \
-        s.value.func.attr == "get" and text(s.value.func.value) == p_opts and \
+        s.value.func.attr == "get" and H.is_var(fn, s.value.func.value, p_opts) and \
         len(s.value.args) == 2 and isinstance(s.value.args[0], ast.Constant):
       out[s.targets[0].id] = (s.value.args[0].value, s.value.args[1])
   return out
@@ -65,7 +65,9 @@ def r1_validate_before_mutate(run, w):
   R1 = run.rule("C28-R1", "BulkAddOrUpdateRecord: the four argument checks are raising branches "
                 "that dominate every mutating call; no raise is reachable after a mutating call",
                 floor=10)
-  fn = w.fn("useractions.UserActions.BulkAddOrUpdateRecord")
+  # private helpers called as statements are read in place (an extracted validation block is
+  # analysed as if it were still written here)
+  fn = H.inlined_fn(w, "useractions.UserActions.BulkAddOrUpdateRecord")
   cfg = fn.cfg
   du = DefUse(fn)
   rd = H.ReachDefs(fn, du)
